@@ -23,7 +23,7 @@ META = {
 
 
 def run(ctx):
-    variants = [{"impl": "concurrent-basic", "cores": 1}, {"impl": "concurrent-compact", "cores": 4, "max": (12, 100)}]
+    variants = [{"impl": "concurrent-basic", "cores": 1}, {"impl": "concurrent-basic", "cores": 3}, {"impl": "concurrent-compact", "cores": 4, "max": (12, 100)}]
     interesting = lambda c: any(f["kind"] == "area" for f in c["eff"].values())
     # parallel builders under load (see C36): 150 copies of a source in one compact world, compared token by token with
     # the in-memory builder's world
